@@ -428,6 +428,11 @@ func (w *World) Concretise(log string, r Req, stored *CP) Concrete {
 		}
 		c.CP = []byte(full[:cut])
 		renderNote += fmt.Sprintf("/cut@%d", cut)
+	case "trailingblank":
+		// the valid, validly signed note followed by one or more blank lines: not a note any more (a note ends with its last signature line);
+		// whoever hands the checkpoint bytes on "as written" hands on something the witness cannot open
+		c.CP = []byte(text + "\n" + sigs + strings.Repeat("\n", 1+w.Rng.Intn(3)))
+		renderNote += "/trailing-blank-lines"
 	case "lineedit":
 		// lines of the signed text swapped, duplicated or removed after signing
 		ls := strings.Split(strings.TrimSuffix(text, "\n"), "\n")
